@@ -16,7 +16,8 @@
      J named name nameu libidabs libidrel major minor      (REFERENCEPROJECT)
      C named name nameu orig|~ twiddled extname|~ extnameu|~ libidext guid cookie  (REFERENCECONTROL)
      (named = 1/0: the REFERENCE carries its NameRecord)
-     M name nameu stream streamu doc docu offset helpctx cookie document ro private *)
+     M name nameu|~ stream streamu doc docu offset helpctx cookie document ro private
+     (nameu = '~': the MODULE record has no MODULENAMEUNICODE record, MS-OVBA 2.3.4.2.3.2) *)
 open Conv
 open Prelude
 open OvbaDir
@@ -94,7 +95,7 @@ let parse_proj (s : string) : proj =
       | _ -> None) secs in
   let mods = List.filter_map (fun a ->
       match a.(0) with
-      | "M" -> Some { ms_name = bytes_f a.(1); ms_name_u = bytes_f a.(2); ms_stream = bytes_f a.(3);
+      | "M" -> Some { ms_name = bytes_f a.(1); ms_name_u = opt_f a.(2); ms_stream = bytes_f a.(3);
                       ms_stream_u = bytes_f a.(4); ms_doc = bytes_f a.(5); ms_doc_u = bytes_f a.(6);
                       ms_offset = nf a.(7); ms_helpctx = nf a.(8); ms_cookie = nf a.(9);
                       ms_document = bf a.(10); ms_readonly = bf a.(11); ms_private = bf a.(12) }
